@@ -4,9 +4,11 @@ package main
 import (
 	"crypto/sha256"
 	"encoding/hex"
+	"encoding/json"
 	"flag"
 	"fmt"
 	"os"
+	"os/exec"
 	"path/filepath"
 	"sort"
 	"strings"
@@ -77,10 +79,39 @@ func main() {
 	}
 
 	if r.Replay != "" {
+		var probe struct {
+			Scenario json.RawMessage `json:"scenario"`
+		}
+		lib.LoadReplay(r.Replay, &probe)
+		if len(probe.Scenario) > 0 { // a schedule of the store-discipline tier
+			var raw json.RawMessage
+			lib.LoadReplay(r.Replay, &raw)
+			tmp := filepath.Join(root, "c02s-replay.json")
+			os.MkdirAll(root, 0o755)
+			os.WriteFile(tmp, raw, 0o644)
+			so := runStoreTier("--replay", tmp)
+			for _, v := range so.Violations {
+				r.Violate(v.Class, v, v.Detail)
+			}
+			os.RemoveAll(root)
+			r.Finish(lib.Coverage{Evaluations: 1, DistinctNontrivial: 1, States: 1, Transitions: 1, Exhaustive: true})
+			return
+		}
 		var w witness
 		lib.LoadReplay(r.Replay, &w)
 		replay(r, plz, root, *prop, w)
 		return
+	}
+	var so *storeOut
+	if *prop == "C02" && *onlyFam == "" && os.Getenv("VERIF_AUX_C02S") != "" {
+		bound, budget := "1", "4m"
+		if !r.Quick() {
+			bound, budget = "2", "20m"
+		}
+		so = runStoreTier("--bound", bound, "--budget", budget)
+		for _, v := range so.Violations {
+			r.Violate(v.Class, v, "[store-discipline tier] "+v.Detail)
+		}
 	}
 
 	total := hist.Stats{EditKindsHit: map[string]int{}}
@@ -126,8 +157,50 @@ func main() {
 		Transitions:        total.Transitions,
 		TracesValidated:    total.Transitions,
 		Exhaustive:         complete,
-		Extra:              map[string]any{"clean_builds_for_oracle": cleans, "edit_kinds_that_changed_state": total.EditKindsHit, "runs": len(runs), "transitions_served_from_cache_after_rm_plz_out": cacheRestores},
+		Extra:              storeExtra(so, map[string]any{"clean_builds_for_oracle": cleans, "edit_kinds_that_changed_state": total.EditKindsHit, "runs": len(runs), "transitions_served_from_cache_after_rm_plz_out": cacheRestores}),
 	})
+}
+
+// storeOut is what the store-discipline tier (harness/c02s) prints.
+type storeOut struct {
+	Scenarios   int              `json:"scenarios"`
+	Executions  int              `json:"executions"`
+	Pruned      int              `json:"pruned"`
+	States      int              `json:"states"`
+	Transitions int              `json:"transitions"`
+	Incomplete  int              `json:"incomplete"`
+	Bound       int              `json:"bound"`
+	Stores      int              `json:"store_calls_observed"`
+	Violations  []storeViolation `json:"violations"`
+}
+
+type storeViolation struct {
+	Class    string          `json:"class"`
+	Scenario json.RawMessage `json:"scenario"`
+	Choices  []int           `json:"choices"`
+	Newest   bool            `json:"newest_first"`
+	Detail   string          `json:"detail"`
+}
+
+func runStoreTier(args ...string) *storeOut {
+	cmd := exec.Command(os.Getenv("VERIF_AUX_C02S"), args...)
+	cmd.Env = append(os.Environ(), "GOMAXPROCS=1", "GOGC=off", "GOMEMLIMIT=2GiB")
+	cmd.Stderr = os.Stderr
+	b, err := cmd.Output()
+	var so storeOut
+	if err != nil || json.Unmarshal(b, &so) != nil {
+		lib.Fatal("store-discipline tier failed: %v\n%s", err, b)
+	}
+	return &so
+}
+
+func storeExtra(so *storeOut, m map[string]any) map[string]any {
+	if so != nil {
+		m["store_tier_scenarios"], m["store_tier_executions"], m["store_tier_pruned"] = so.Scenarios, so.Executions, so.Pruned
+		m["store_tier_states"], m["store_tier_transitions"], m["store_tier_delay_bound"] = so.States, so.Transitions, so.Bound
+		m["store_tier_incomplete_explorations"], m["store_tier_store_calls_observed"] = so.Incomplete, so.Stores
+	}
+	return m
 }
 
 func hashMap(m map[string]string) string {
